@@ -22,6 +22,34 @@ pub fn check(t: &Trace<'_>, out: &mut CaseOut) -> bool {
             out.violations.push(viol("C16", format!("C16/spin/{}", kind), format!("{} exceeded the per-call budget of {} transport calls / {} bytes without returning", kind, w.budget_calls, w.budget_bytes)));
         }
     }
+    // the part of the continuation that stays on the connection the history ended on: transport
+    // and broker behave from there on; what may legitimately end that connection now (a parked
+    // DISCONNECT, an unanswered PINGREQ, an owed packet above the broker's limit, bytes of the
+    // broker that are not MQTT, a stream the history left broken) is not judged, but these are
+    // never an answer to poll() there: no room in a queue of the client's own, and "the transport
+    // accepted nothing" when it took every byte it was offered
+    if let Some(sf) = t.log.stay_from {
+        out.count("continuations_begun_on_the_live_connection", 1);
+        let upto = t.log.epilogue_from.unwrap_or(usize::MAX);
+        for o in t.log.ops.iter().filter(|o| o.step >= sf && o.step < upto && o.kind == "poll") {
+            match &o.outcome {
+                Outcome::Err(ErrRepr::InflightExhausted) if !t.log.hostile => {
+                    let s = o.snap_before.as_ref();
+                    out.violations.push(viol("C16", "C16/live-connection/poll-refused-for-a-full-queue", format!("transport and broker behave, the connection is up, and poll() returns InflightExhausted (owed control packets {:?}, retained {:?}): nothing the session holds can complete on this connection", s.map(|s| s.tx.control.iter().map(|e| (e.kind, e.packet_id)).collect::<Vec<_>>()), s.map(|s| s.tx.retained.iter().map(|e| e.packet_id).collect::<Vec<_>>()))));
+                    return true;
+                }
+                Outcome::Err(ErrRepr::WriteZero) => {
+                    let cause = w.events[o.ev_call..=o.ev_ret.min(w.events.len() - 1)].iter().any(|e| matches!(e, Ev::Io { kind: IoKind::Write, req, ans: IoAns::Zero, .. } if *req > 0));
+                    if !cause {
+                        out.violations.push(viol("C16", "C16/live-connection/write-zero-nobody-caused", "transport and broker behave, the connection is up, and poll() returns WriteZero although every write that offered a byte took at least one".to_string()));
+                        return true;
+                    }
+                }
+                Outcome::Err(e) => out.key(format!("live-connection-ended/{:?}", e).chars().take(60).collect::<String>()),
+                _ => {}
+            }
+        }
+    }
     let Some(from) = t.log.epilogue_from else { return false };
     let Some((ci, cop)) = t.log.ops.iter().enumerate().find(|(_, o)| o.step >= from && o.kind == "connect") else { return false };
     let Some(conn) = cop.conn else { return false };
